@@ -1,0 +1,52 @@
+//go:build verif
+
+// Contracts for the recent-block duplicate tracker (property C38), read by /verif/gocv.
+package increment
+
+//@ invariant-of *IncrementValidator :: self.maxBlocks > 0 && len(self.blocks) <= self.maxBlocks
+//@ invariant-of *IncrementValidator :: forall j int :: 0 <= j && j < len(self.blocks) ==> !isnil(self.blocks[j])
+
+//@ func (*IncrementValidator).blockRange
+//@   property C38
+//@   ensures start == self.baseHeight && end == self.baseHeight + uint32(len(self.blocks))
+
+//@ func (*IncrementValidator).BlockRange
+//@   property C38
+//@   ensures start == self.baseHeight && end == self.baseHeight + uint32(len(self.blocks))
+
+//@ func (*IncrementValidator).Clean
+//@   property C38
+//@   modifies self.blocks, self.baseHeight
+//@   ensures len(self.blocks) == 0 && self.baseHeight == 0
+
+//@ func (*IncrementValidator).Verify
+//@   property C38
+//@   requires tx != nil
+//@   -- exact in both directions: an error is returned iff the start height is below the window
+//@   -- or some tracked block at or above the start height contains the hash
+//@   ensures result == nil ==> startHeight >= self.baseHeight
+//@   ensures result == nil ==> forall j int :: int(startHeight - self.baseHeight) <= j && j < len(self.blocks) ==> !has(self.blocks[j], tx.hash)
+//@   ensures result != nil ==> (startHeight < self.baseHeight || exists j int :: int(startHeight - self.baseHeight) <= j && j < len(self.blocks) && has(self.blocks[j], tx.hash))
+//@   loop 1 invariant int(startHeight - self.baseHeight) <= i
+//@   loop 1 invariant forall j int :: int(startHeight - self.baseHeight) <= j && j < i ==> !has(self.blocks[j], tx.hash)
+
+//@ func (*IncrementValidator).AddBlock
+//@   property C38
+//@   requires block != nil && block.Header != nil
+//@   requires forall t int :: 0 <= t && t < len(block.Transactions) ==> block.Transactions[t] != nil
+//@   requires uint64(self.baseHeight) + uint64(len(self.blocks)) < 0xffffffff
+//@   modifies self.blocks, self.baseHeight, elems(self.blocks)
+//@   -- gapped (non-contiguous) blocks are ignored
+//@   ensures (len(old(self.blocks)) != 0 && old(self.baseHeight) + uint32(len(old(self.blocks))) != block.Header.Height) ==> len(self.blocks) == len(old(self.blocks)) && self.baseHeight == old(self.baseHeight) && forall j int :: 0 <= j && j < len(self.blocks) ==> self.blocks[j] == old(self.blocks[j])
+//@   -- first block: the window starts at its height
+//@   ensures len(old(self.blocks)) == 0 ==> len(self.blocks) == 1 && self.baseHeight == block.Header.Height
+//@   -- contiguous block below capacity: appended
+//@   ensures (len(old(self.blocks)) != 0 && len(old(self.blocks)) < self.maxBlocks && old(self.baseHeight) + uint32(len(old(self.blocks))) == block.Header.Height) ==> len(self.blocks) == len(old(self.blocks)) + 1 && self.baseHeight == old(self.baseHeight) && forall j int :: 0 <= j && j < len(old(self.blocks)) ==> self.blocks[j] == old(self.blocks[j])
+//@   -- contiguous block at capacity: the oldest block is dropped, the window slides by one
+//@   ensures (len(old(self.blocks)) != 0 && len(old(self.blocks)) >= self.maxBlocks && old(self.baseHeight) + uint32(len(old(self.blocks))) == block.Header.Height) ==> len(self.blocks) == len(old(self.blocks)) && self.baseHeight == old(self.baseHeight) + 1 && forall j int :: 0 <= j && j + 1 < len(old(self.blocks)) ==> self.blocks[j] == old(self.blocks[j+1])
+//@   -- whenever the block is taken, the last tracked set contains every transaction hash of the block
+//@   ensures (len(old(self.blocks)) == 0 || old(self.baseHeight) + uint32(len(old(self.blocks))) == block.Header.Height) ==> forall t int :: 0 <= t && t < len(block.Transactions) ==> has(self.blocks[len(self.blocks)-1], block.Transactions[t].hash)
+//@   -- and the window always ends just above the accepted block
+//@   ensures (len(old(self.blocks)) == 0 || old(self.baseHeight) + uint32(len(old(self.blocks))) == block.Header.Height) ==> self.baseHeight + uint32(len(self.blocks)) == block.Header.Height + 1
+//@   loop 1 invariant forall t int :: 0 <= t && t < it ==> has(txHashes, block.Transactions[t].hash)
+//@   loop 1 invariant !isnil(txHashes)
